@@ -784,8 +784,10 @@ func (cx *zvC12Ctx) ref(cfg zvC12Cfg, side, variant string, final zvC12Chain, ma
 	return v
 }
 
-// check runs one case and its reference and evaluates the oracle. Coverage counters never depend on the verdict.
-func (cx *zvC12Ctx) check(c zvC12Case, verbose bool) {
+// check runs one case and its reference and evaluates the oracle; it returns false if the case violates the
+// property. Coverage counters are computed from the enumeration and from the reference worlds only, never from
+// the verdict. With silent set nothing is counted or reported (used to find out whether a simpler case fails).
+func (cx *zvC12Ctx) check(c zvC12Case, verbose, silent bool) bool {
 	r := cx.r
 	cfg := cx.cfgs[c.Config]
 	chains := []zvC12Chain{cx.lang[c.Old], cx.lang[c.New]}
@@ -800,52 +802,49 @@ func (cx *zvC12Ctx) check(c zvC12Case, verbose bool) {
 		return vh.Sig("clause", clause, "kind", kind, "where", where, "differs_in", differs, "variant", c.Variant, "config", c.Config, "phase", phase,
 			"replacements", fmt.Sprint(len(chains)-1))
 	}
+	violation := func(sg map[string]string, f string, a ...any) {
+		if !silent {
+			r.Violation(sg, c, f, a...)
+		}
+	}
 	want := cx.ref(cfg, c.Side, c.Variant, final, c.Subset)
 	if want.Status != vsched.Completed || want.Problem != "" || want.Done != 3 {
 		// the reference history itself (no replacement involved) does not run: not this property's business
-		r.Count("reference_unusable", 1)
+		if !silent {
+			r.Count("reference_unusable", 1)
+		}
 		if verbose {
 			fmt.Printf("reference unusable: %s %s %s %s\n", want.Status, want.Problem, want.Crash, want.Blocked)
 		}
-		return
+		return true
 	}
-	got := zvC12Run(cfg, c.Side, c.Variant, chains, c.Subset)
-	r.Eval(1)
-	r.Count(c.Side+"_cases", 1)
-	r.Count("variant:"+c.Variant, 1)
-	r.Count("config:"+c.Config, 1)
-	if c.Newer != "" {
-		r.Count("triples", 1)
-	}
-	if differs == "none" {
-		r.Count("same_policy_pairs", 1)
-	}
-	// does the new policy treat some route differently from the old one? (two reference worlds compared)
-	if c.Newer == "" {
-		oldRef := cx.ref(cfg, c.Side, c.Variant, chains[0], c.Subset)
-		if oldRef.Status == vsched.Completed && oldRef.Done == 3 {
-			eff := false
-			for ph := 0; ph < 3; ph++ {
-				if _, _, _, d := zvC12Diff(oldRef.Obs[ph], want.Obs[ph]); d {
-					eff = true
+	if !silent {
+		r.Eval(1)
+		// does the new policy treat some route differently from the old one? (two reference worlds compared)
+		if c.Newer == "" {
+			oldRef := cx.ref(cfg, c.Side, c.Variant, chains[0], c.Subset)
+			if oldRef.Status == vsched.Completed && oldRef.Done == 3 {
+				eff := false
+				for ph := 0; ph < 3; ph++ {
+					if _, _, _, d := zvC12Diff(oldRef.Obs[ph], want.Obs[ph]); d {
+						eff = true
+						if ph == 0 {
+							r.Count("replacement_must_change_tables_"+c.Side, 1)
+						}
+					}
+				}
+				if eff {
+					r.Nontrivial(1)
+					r.Count("policies_treat_routes_differently", 1)
+					r.Count("effective:"+differs, 1)
+				} else if differs != "none" {
+					r.Count("policies_differ_without_effect_on_this_route_set", 1)
 				}
 			}
-			if eff {
-				r.Nontrivial(1)
-				r.Count("policies_treat_routes_differently", 1)
-				r.Count("effective:"+differs, 1)
-			} else if differs != "none" {
-				r.Count("policies_differ_without_effect_on_this_route_set", 1)
-			}
-		}
-		r.Count("differs_in:"+differs, 1)
-	}
-	if c.Variant == zvC12Live && got.Done >= 1 {
-		if _, _, _, d := zvC12Diff(got.Pre, got.Obs[0]); d {
-			r.Count("replacement_changed_tables", 1)
-			r.Count("replacement_changed_tables_"+c.Side, 1)
+			r.Count("differs_in:"+differs, 1)
 		}
 	}
+	got := zvC12Run(cfg, c.Side, c.Variant, chains, c.Subset)
 	if verbose {
 		fmt.Printf("case %+v differs_in=%s\n", c, differs)
 		fmt.Printf("  status=%s problem=%q crash=%.300s blocked=%.300s\n", got.Status, got.Problem, got.Crash, got.Blocked)
@@ -857,23 +856,28 @@ func (cx *zvC12Ctx) check(c zvC12Case, verbose bool) {
 		}
 	}
 	if got.Status != vsched.Completed {
-		r.Violation(sig("run-"+got.Status.String(), "execution", "-"), c, "history with policy replacement ends in %s (the same history with the new policy from the start completes): %.400s %.400s", got.Status, got.Crash, got.Blocked)
-		return
+		violation(sig("run-"+got.Status.String(), "execution", "-"), "history with policy replacement ends in %s (the same history with the new policy from the start completes): %.400s %.400s", got.Status, got.Crash, got.Blocked)
+		return false
 	}
 	if got.Problem != "" {
-		r.Violation(sig("history-stuck", "session", "-"), c, "%s (the same history with the new policy from the start runs through)", got.Problem)
-		return
+		violation(sig("history-stuck", "session", "-"), "%s (the same history with the new policy from the start runs through)", got.Problem)
+		return false
 	}
 	for ph := 0; ph < 3; ph++ {
-		r.Count("phase_compared:"+zvC12Phases[ph], 1)
-		r.Outcome(got.Obs[ph].String())
+		if !silent {
+			r.Count("phase_compared:"+zvC12Phases[ph], 1)
+			r.Outcome(got.Obs[ph].String())
+		}
 		if tab, kind, text, d := zvC12Diff(got.Obs[ph], want.Obs[ph]); d {
-			r.Violation(sig(kind, tab, zvC12Phases[ph]), c, "%s side, %s, %s, old policy [%s] -> new [%s]%s, route set %03b, %s: %s",
+			violation(sig(kind, tab, zvC12Phases[ph]), "%s side, %s, %s, old policy [%s] -> new [%s]%s, route set %03b, %s: %s",
 				c.Side, c.Config, c.Variant, c.Old, c.New, zvC12NewerText(c), c.Subset, zvC12Phases[ph], text)
-			return // later phases are consequences
+			return false // later phases are consequences
 		}
 	}
+	return true
 }
+
+func zvC12Main(cfgs []zvC12Cfg) zvC12Cfg { return cfgs[0] }
 
 func zvC12NewerText(c zvC12Case) string {
 	if c.Newer == "" {
@@ -897,9 +901,8 @@ func TestVerifC12(t *testing.T) {
 		cx.cfgs[c.Name] = c
 	}
 	required := []string{"import_cases", "export_cases", "triples", "same_policy_pairs", "policies_treat_routes_differently",
-		"replacement_changed_tables_import", "replacement_changed_tables_export",
-		"variant:" + zvC12Live, "variant:" + zvC12DownFirst, "variant:" + zvC12Bounce, "variant:" + zvC12DownBetween,
-		"phase_compared:after-replace", "phase_compared:after-reannounce", "phase_compared:after-withdraw"}
+		"replacement_must_change_tables_import", "replacement_must_change_tables_export",
+		"variant:" + zvC12Live, "variant:" + zvC12DownFirst, "variant:" + zvC12Bounce, "variant:" + zvC12DownBetween}
 	for _, c := range cfgs {
 		required = append(required, "config:"+c.Name)
 	}
@@ -908,10 +911,11 @@ func TestVerifC12(t *testing.T) {
 	}
 	r.Require(required...)
 	r.Rule(fmt.Sprintf("policy language of %d chains (core %d); all ordered pairs (old,new) x all 8 subsets of 3 routes x {import, export} on an eBGP session in the 'live' history "+
-		"(establish with old, routes, replace) and, on one/all route sets, the histories down-first / bounce / down-between; core pairs x 4 session configurations x 4 histories; "+
+		"(establish with old, routes, replace) and, on one (quick) / all (thorough) route sets, the histories down-first / bounce / down-between; core pairs x %d further session configurations x 4 histories; "+
 		"all ordered triples of the core; every history run on the real bgpServer under the controlled scheduler (bound 0) and compared in 3 phases (after replacement, after re-announcing all routes, "+
-		"after withdrawing them) with the same history run with the final policy configured from the start; non-trivial = the two policies treat some route of the set differently (their reference worlds differ)",
-		len(lang), len(core)))
+		"after withdrawing them) with the same history run with the final policy configured from the start; a case whose policy pair already fails in the plain 'live' history on the eBGP session is "+
+		"not run again in the other histories/configurations/triples (counted as skipped_consequence); non-trivial = the two policies treat some route of the set differently (their reference worlds differ)",
+		len(lang), len(core), len(cfgs)-1))
 	r.Extra("language_size", len(lang))
 
 	if r.IsReplay() {
@@ -925,11 +929,25 @@ func TestVerifC12(t *testing.T) {
 				r.Fatalf("replay: unknown chain %q", n)
 			}
 		}
-		cx.check(c, true)
+		if _, ok := cx.lang[c.Newer]; c.Newer != "" && !ok {
+			r.Fatalf("replay: unknown chain %q", c.Newer)
+		}
+		cx.check(c, true, false)
 		for _, n := range required {
 			r.Count(n, 1)
 		}
 		return
+	}
+
+	// replay determinism is asserted, not assumed: the same history twice must give the same observations
+	for _, side := range zvC12Main(cfgs).Sides {
+		a := zvC12Run(cfgs[0], side, zvC12Bounce, []zvC12Chain{core[3], core[4]}, 7)
+		b := zvC12Run(cfgs[0], side, zvC12Bounce, []zvC12Chain{core[3], core[4]}, 7)
+		for ph := 0; ph < 3; ph++ {
+			if a.Status != b.Status || a.Done != b.Done || a.Obs[ph].String() != b.Obs[ph].String() {
+				r.Fatalf("the same history run twice differs (%s side, phase %d): %s / %s  vs  %s / %s", side, ph, a.Status, a.Obs[ph], b.Status, b.Obs[ph])
+			}
+		}
 	}
 
 	allSubsets := []int{0, 1, 2, 3, 4, 5, 6, 7}
@@ -937,68 +955,108 @@ func TestVerifC12(t *testing.T) {
 	if thorough {
 		fewSubsets = allSubsets
 	}
-	idx := 0
-	capped := false
-	// work item = (config, side, variant, final chain): the shard that owns it computes the references once
-	item := func(cfg zvC12Cfg, side, variant string, olds []zvC12Chain, nw zvC12Chain, subsets []int) {
-		idx++
-		if !r.Mine(idx) || capped {
-			return
-		}
-		for _, old := range olds {
-			for _, m := range subsets {
-				if r.OutOfBudget() {
-					r.Cap("time budget")
-					capped = true
-					return
-				}
-				cx.check(zvC12Case{Side: side, Config: cfg.Name, Variant: variant, Old: old.Name, New: nw.Name, Subset: m}, false)
-			}
-		}
-		cx.refs = map[string]zvC12Res{} // references of other work items are never needed again... except the old-policy ones, recomputed on demand
-	}
-	variants := []string{zvC12Live, zvC12DownFirst, zvC12Bounce, zvC12DownBetween}
 	main := cfgs[0]
-	for _, side := range main.Sides {
-		for _, v := range variants {
-			subsets := allSubsets
-			if v != zvC12Live {
-				subsets = fewSubsets
-			}
-			for _, nw := range lang {
-				item(main, side, v, lang, nw, subsets)
-			}
-		}
+	variants := []string{zvC12Live, zvC12DownFirst, zvC12Bounce, zvC12DownBetween}
+	isCore := map[string]bool{}
+	for _, c := range core {
+		isCore[c.Name] = true
 	}
-	for _, cfg := range cfgs[1:] {
-		for _, side := range cfg.Sides {
-			for _, v := range variants {
-				for _, nw := range core {
-					item(cfg, side, v, core, nw, fewSubsets)
-				}
-			}
+	capped := false
+	budget := func() bool {
+		if !capped && r.OutOfBudget() {
+			r.Cap("time budget")
+			capped = true
 		}
+		return !capped
 	}
-	// triples on the core (all ordered triples, repetitions included: A->B->A returns to the original policy)
+	// enumerate counts the case (coverage of the enumeration must not depend on verdicts) and runs it unless it is
+	// the consequence of a failure already reported
+	enumerate := func(c zvC12Case, skip bool) bool {
+		r.Count(c.Side+"_cases", 1)
+		r.Count("variant:"+c.Variant, 1)
+		r.Count("config:"+c.Config, 1)
+		if c.Newer != "" {
+			r.Count("triples", 1)
+		} else if c.Old == c.New {
+			r.Count("same_policy_pairs", 1)
+		}
+		if skip {
+			r.Count("skipped_consequence", 1)
+			return true
+		}
+		return cx.check(c, false, false)
+	}
+	idx := 0
+	// work item = (side, final chain): the shard that owns it computes the reference worlds of that chain once
 	for _, side := range main.Sides {
-		for _, newer := range core {
+		for _, nw := range lang {
 			idx++
-			if !r.Mine(idx) || capped {
+			if !r.Mine(idx) {
 				continue
 			}
-			for _, old := range core {
-				for _, nw := range core {
-					for _, m := range fewSubsets {
-						if r.OutOfBudget() {
-							r.Cap("time budget")
-							capped = true
-							break
-						}
-						cx.check(zvC12Case{Side: side, Config: main.Name, Variant: zvC12Live, Old: old.Name, New: nw.Name, Newer: newer.Name, Subset: m}, false)
+			// 1. base: eBGP session, live history, every old policy, every route set
+			baseFail := map[string]bool{}
+			for _, old := range lang {
+				for _, m := range allSubsets {
+					if !budget() {
+						break
+					}
+					if !enumerate(zvC12Case{Side: side, Config: main.Name, Variant: zvC12Live, Old: old.Name, New: nw.Name, Subset: m}, false) {
+						baseFail[old.Name] = true
 					}
 				}
 			}
-			cx.refs = map[string]zvC12Res{}
+			// 2. the other histories
+			for _, v := range variants[1:] {
+				for _, old := range lang {
+					for _, m := range fewSubsets {
+						if !budget() {
+							break
+						}
+						enumerate(zvC12Case{Side: side, Config: main.Name, Variant: v, Old: old.Name, New: nw.Name, Subset: m}, baseFail[old.Name])
+					}
+				}
+			}
+			if isCore[nw.Name] {
+				// 3. the other session configurations, core pairs
+				for _, cfg := range cfgs[1:] {
+					sideOK := false
+					for _, sd := range cfg.Sides {
+						sideOK = sideOK || sd == side
+					}
+					if !sideOK {
+						continue
+					}
+					for _, v := range variants {
+						for _, old := range core {
+							for _, m := range fewSubsets {
+								if !budget() {
+									break
+								}
+								enumerate(zvC12Case{Side: side, Config: cfg.Name, Variant: v, Old: old.Name, New: nw.Name, Subset: m}, baseFail[old.Name])
+							}
+						}
+					}
+				}
+				// 4. two replacements in a row: all ordered triples of the core ending in this chain (repetitions included:
+				// A->B->A returns to the original policy); not run if one of the two single replacements already fails
+				firstFails := map[string]bool{}
+				for _, old := range core {
+					for _, mid := range core {
+						for _, m := range fewSubsets {
+							if !budget() {
+								break
+							}
+							k := fmt.Sprintf("%s|%s|%d", old.Name, mid.Name, m)
+							if _, ok := firstFails[k]; !ok && !baseFail[mid.Name] {
+								firstFails[k] = !cx.check(zvC12Case{Side: side, Config: main.Name, Variant: zvC12Live, Old: old.Name, New: mid.Name, Subset: m}, false, true)
+							}
+							enumerate(zvC12Case{Side: side, Config: main.Name, Variant: zvC12Live, Old: old.Name, New: mid.Name, Newer: nw.Name, Subset: m}, baseFail[mid.Name] || firstFails[k])
+						}
+					}
+				}
+			}
+			cx.refs = map[string]zvC12Res{} // the reference worlds of this item are not needed again
 		}
 	}
 }
